@@ -513,9 +513,45 @@ def r_intclass(c):
          "pytato/raising.py:1", nontrivial=False)
 
 
+def r_reduce_positions(c):
+    """a ReduceOp has no field for a permutation of the kept axes: an index lambda
+    is a plain reduction only if its non-reduced subscripts are _0, _1, ... IN THIS
+    ORDER.  The recogniser counts the kept axes with a counter that advances exactly
+    when a kept axis was matched (name, then length), and anything else is unknown"""
+    m = c.model
+    from pta.pat import find
+    fd = m.func(R + "._is_normal_reduce_expr")
+    where = m.loc(m.module_of(fd), fd)
+    ep = fd.args.args[0].arg
+    kept = find(fd, f"""
+if $idx.name == f"_{{$ctr}}":
+    if not are_shape_components_equal($in.shape[$idim], {ep}.shape[$ctr]):
+        return False
+    $ctr += 1
+else:
+    return False
+""")
+    ok = len(kept) == 1
+    if ok:
+        ctr = kept[0]["$ctr"]
+        incs = [x for x in ast.walk(fd) if isinstance(x, ast.AugAssign)
+                and ast.unparse(x.target) == ctr]
+        inits = find(fd, f"{ctr} = 0")
+        # the matched `if` is the else-arm of the test for reduction variables
+        par = kept[0]["@node"]._parent
+        in_else = isinstance(par, ast.If) and kept[0]["@node"] in par.orelse \
+            and "bounds" in ast.unparse(par.test)
+        ok = len(incs) == 1 and len(inits) == 1 and in_else
+    c.check(ok, "R19-PATTERN", "_is_normal_reduce_expr", "kept-axes-matched-in-order", where,
+            "the kept (non-reduced) subscripts are not matched as _0, _1, ... in order with "
+            "a counter that advances exactly once per matched kept axis: a reduction with "
+            "permuted or skipped output subscripts is raised to a plain ReduceOp, or an "
+            "API-made reduction over a leading axis is reported unknown")
+
+
 SPEC = Spec(
     prop="C19",
-    rules=[r_arity, r_order, r_cascade, r_tables, r_producer, r_patterns, r_intclass],
+    rules=[r_arity, r_order, r_cascade, r_tables, r_producer, r_patterns, r_intclass, r_reduce_positions],
     floors={"R19-ARITY": 9, "R19-ORDER": 5, "R19-CASCADE": 6, "R19-TABLES": 60,
             "R19-PRODUCER": 10, "R19-PATTERN": 12},
     explanation=(
